@@ -179,7 +179,7 @@ def build(repo=None):
             ob.setdefault("kind", "vc")
             ob["function"] = fn_label
             c = ob["clause"]
-            ob["serves"] = [c.split(":")[0]] if c[:3] in ("C05", "C07", "C13", "C19", "C02") else None
+            ob["serves"] = ([c.split(":")[0]] + (["C12"] if c[:3] == "C05" else [])) if c[:3] in ("C05", "C07", "C13", "C19", "C02") else None  # C05 stack-balance clauses are also C12's restore obligations
             if ob["serves"] is None:
                 ob.pop("serves")
             obligations.append(ob)
@@ -197,6 +197,7 @@ def build(repo=None):
     Disabled = z3.Bool("config_disable")
     RemoveStack = z3.Bool("config_remove_stack")
     fn_v = Opaque("fn", z3.Const("the_fn", U))
+    wrapper_self = Opaque("wrapper-self", z3.Const("the_wrapper", U))
     eng.globals.update({
         "config": Opaque("config", attrs={"jaxtyping_disable": Z("bool", Disabled), "jaxtyping_remove_typechecker_stack": Z("bool", RemoveStack)}),
         "fn": Fn("fn", model=user_call("fn")),
@@ -209,7 +210,7 @@ def build(repo=None):
         "module": Z("str", z3.String("fn_module")),
         "typechecker": Opaque("typechecker"),
         "output_name": Z("str", z3.String("output_name")),
-        "wrapped_fn_holder": Tup([Fn("weakref", model=lambda e, s, a, k, n: [(s, Opaque("wrapper-self"))])]),
+        "wrapped_fn_holder": Tup([Fn("weakref", model=lambda e, s, a, k, n: [(s, wrapper_self)])]),
     })
     # getattr(fn, "__no_type_check__", False) on a Fn value: route through an opaque twin
     from ..builtins_model import b_getattr
@@ -274,6 +275,11 @@ def build(repo=None):
         else:
             # the enabled path is taken only when none of the switches is on
             eng.oblige(s1, "C19:checking-path-implies-not-disabled", z3.Not(Disabled))
+            marks = []
+            for tgt in (fn_v, wrapper_self):
+                (s_m, r_m), = b_getattr(eng, s1, [tgt, Z("str", z3.StringVal("__no_type_check__")), Z("bool", z3.BoolVal(False))], {}, None)
+                marks.append(eng.truth(s_m, r_m))
+            eng.oblige(s1, "C19:checking-path-implies-neither-the-function-nor-its-wrapper-is-marked-no_type_check(read-at-call-time)", z3.Not(z3.Or(*marks)))
         # ---- C02b: protocol param_fn -> fn -> full_fn within the single pushed frame
         if not disabled_path and "bind" in callees:
             seq = [c for c in callees if c in ("param_fn", "fn", "full_fn")]
@@ -338,11 +344,21 @@ def build(repo=None):
     functions.append({"qualname": "jaxtyping._decorator.jaxtyped/<old-style>/wrapped_fn", "sha256_16": mod.sha(wf_old), "lines": [wf_old.lineno, wf_old.end_lineno]})
     eng = base_engine(mod)
     eng.user_raises = exc_representatives(wf_old)
+    DisabledOld = z3.Bool("config_disable")
+    fn_old = Opaque("fn", z3.Const("the_fn", U))
     eng.globals.update({
         "fn": Fn("fn", model=user_call("fn")),
         "signature": Opaque("signature"),
         "sys": Opaque("module:sys"),
+        "config": Opaque("config", attrs={"jaxtyping_disable": Z("bool", DisabledOld), "jaxtyping_remove_typechecker_stack": Z("bool", z3.Bool("config_remove_stack"))}),
     })
+
+    def m_getattr_old(e, s, args, kwargs, node):
+        if args and isinstance(args[0], Fn) and args[0].name == "fn":
+            args = [fn_old] + list(args[1:])
+        return b_getattr(e, s, args, kwargs, node)
+
+    eng.globals["getattr"] = Fn("getattr", model=m_getattr_old)
     st = State()
     st.ghost.update(stack=[], underflow=False, pushes=0, rolled_back=False)
     args_v, kwargs_v = Opaque("args"), Opaque("kwargs")
@@ -354,6 +370,11 @@ def build(repo=None):
         fn_calls = [e for e in log if e["callee"] == "fn"]
         eng.oblige(s1, "C05:old-style:stack-restored-on-every-exit", z3.BoolVal(s1.ghost["stack"] == [] and not s1.ghost["underflow"]), exit=z3.StringVal(o.kind if o.kind != "raise" else "/".join(sorted(o.val.classes()))))
         eng.oblige(s1, "C07:old-style:body-runs-at-most-once-with-the-same-args", z3.BoolVal(len(fn_calls) <= 1 and all(same_args(e) for e in fn_calls)))
+        (s_m, r_m), = b_getattr(eng, s1, [fn_old, Z("str", z3.StringVal("__no_type_check__")), Z("bool", z3.BoolVal(False))], {}, None)
+        off = z3.Or(DisabledOld, eng.truth(s_m, r_m))
+        touched = s1.ghost["pushes"] > 0 or any(e["callee"] == "bind" for e in log)
+        eng.oblige(s1, "C19:old-style:a-context-is-opened-or-the-arguments-bound-only-when-checking-is-on(switch-and-no_type_check-read-at-call-time)", z3.Not(off) if touched else z3.BoolVal(True))
+        eng.oblige(s1, "C19:old-style:with-checking-on-the-call-runs-in-its-own-context", off if (not touched and fn_calls) else z3.BoolVal(True))
         if o.kind == "return":
             eng.oblige(s1, "C07:old-style:result-is-the-body-result", z3.BoolVal(len(fn_calls) == 1 and o.val is fn_calls[0]["ret"]))
         elif o.kind == "raise":
